@@ -108,11 +108,32 @@ def gen_timers(tier, seed):
     return [hbgen.session(rng, "k%d" % i, force_close=rng.choice(["client", "client", "server"]), h_choices=(400, 300), steps=(4, 7)) for i in range(n)]
 
 
+def gen_after_close(tier, seed):
+    """The close point, then the Close / CloseOk flushed completely / partly / not at all, then every
+    pair of later events (submissions on two channels, a second close, frames, writes, transport
+    events): that frame stays the last one queued and written."""
+    import amqp
+    from machgen import hx
+    from props.c07 import gen_after_exception
+
+    def client_close(g):
+        g.op("send 0 close0 %s" % hx(amqp.connection_close(200, "goodbye"))); g.op("ev 0")
+        return None
+
+    def client_close_behind_data(g):
+        g.op("send %s send %s" % ([h for h, c in g.handles.items() if c == 1][0], hx(amqp.body(1, b"before")))); g.op("ev 1")
+        return client_close(g)
+
+    return gen_after_exception(tier, seed + 1, closers=[client_close, client_close_behind_data, lambda g: mg.conn_close(320, "bye"), lambda g: mg.conn_close(200, "")], prefix="a")
+
+
 def suites(tier, seed):
     import hbgen
     return [Suite("server-close-e2e", "faults", lambda: [Case("f%d" % i, ["run %s %d" % c], {"keep_prefix": 0, "fault": c[0]}) for i, c in enumerate([("srvclose", 0), ("srvclose200", 0), ("srvclose541", 1)] + ([] if tier == "quick" else [("srvclose0", 0), ("srvclose65535", 0), ("srvclose404", 0)]))],
                   monitor=__import__("props.c05", fromlist=["x"]).e2e_monitor, nontrivial=lambda c, il: True, compare=False, shards=6, timeout=300,
                   rule="real connection, I/O thread and client threads over the mock transport (a consumer waiting, a call in flight, a publisher publishing): the server closes the connection with reply code 320 / 200 / 541 (thorough: 0, 65535, 404): every thread is released and Connection::close returns ServerClosedConnection with exactly that code and text - for EVERY reply code"),
+            Suite("after-the-close-point", "machine", lambda: gen_after_close(tier, seed), monitor=monitor, nontrivial=lambda c, il: True, canon=mg.canon_nondet, candidate_ok=mg.candidate_ok, exhaustive=(tier != "quick"),
+                  rule="client close (alone / behind queued data) and server close (320 / 200), the Close / CloseOk then flushed completely, up to its 5th byte, or not at all, then every pair out of {submission on channel 1, on channel 2, (another) client close, inbound frame, write, stream writable, stream readable+writable}: nothing is queued or written behind the closing frame (quick: every other combination)"),
             Suite("timers-after-close", "machine", lambda: gen_timers(tier, seed), monitor=timers_monitor, nontrivial=lambda c, il: True, canon=hbgen.canon, shards=16, shrink=False, timeout=300,
                   rule="the REAL I/O loop with its real heartbeat timers (300/400 ms): a client Connection.Close (flushed) or a server Connection.Close early in the session, then sleeps past one and two intervals with HEARTBEAT events, inbound bytes, stalls: the Close / CloseOk stays the last frame queued; exact diff against the Lean ConnHb model on the nominal clock"),
             Suite("slow-close-e2e", "hbe2e", lambda: gen_e2e(tier, seed), monitor=e2e_monitor, nontrivial=lambda c, il: True, compare=False, shards=4, timeout=120,
